@@ -30,7 +30,8 @@ impl Paths {
         let filename = "kern_".to_string()
             + &location
                 .iter()
-                .map(|(tag, pos)| format!("{tag}_{:.2}", pos.to_f64()))
+                // the shortest representation that round-trips, so distinct locations get distinct files
+                .map(|(tag, pos)| format!("{tag}_{}", pos.to_f64()))
                 .collect::<Vec<_>>()
                 .join("_")
             + ".yml";
